@@ -37,6 +37,13 @@ func smoke() {
 	for _, n := range []string{"a1", "a2", "fee_collector", "dao"} {
 		fmt.Fprintf(os.Stderr, "  %s: %d -> %d\n", n, pre.Bal[n], post.Bal[n])
 	}
+	for _, tx := range []absTx{w.sendTx("a6", "a7", 5), w.nodeUnstakeTx("a3", "a3", "a3"), w.nodeUnstakeTx("a3", "a10", "a3")} {
+		tx["hasPK"] = false
+		w.begin(blockOpts{})
+		r := w.s.DeliverTx(w.buildTx(tx))
+		fmt.Fprintf(os.Stderr, "no-pubkey %v: %s/%d %.3000s\n", tx["kind"], r.Codespace, r.Code, r.Log)
+		w.end()
+	}
 	t0 := time.Now()
 	tw, _ := hx.NewTraceWriter("/dev/null")
 	w.tw = tw
